@@ -101,7 +101,7 @@ func runThresholds(f lib.Flags, res *lib.Result, r *lib.RNG, drv *lib.Driver, on
 	}
 	outs, err := drv.AskAll(lines)
 	if err != nil {
-		res.Note("driver: %v", err)
+		res.Fatalf("Lean driver failed: %v", err)
 		return
 	}
 	for i, n := range ns {
